@@ -196,6 +196,11 @@ fn long_flat(ctx: &mut Ctx) {
             }
         }
     }
+    for l in 2..=40usize {
+        if !lens.contains(&l) {
+            lens.push(l);
+        }
+    }
     let mut idx = 0u64;
     for &l in &lens {
         let units: Vec<(&str, String)> = vec![
@@ -223,6 +228,19 @@ fn long_flat(ctx: &mut Ctx) {
                 check_bytes(ctx, text.as_bytes(), true);
                 ctx.count("long_flat", 1);
                 let _ = name;
+            }
+        }
+        // runs of non-ASCII decimal digits (2-, 3- and 4-byte encodings) and mixed runs
+        if l <= 64 {
+            for (name, d) in [("arabic-indic", "\u{663}"), ("devanagari", "\u{967}"), ("fullwidth", "\u{ff11}"), ("math-bold", "\u{1d7cf}")] {
+                for text in [d.repeat(l), format!("1{}", d.repeat(l - 1)), format!("[a, b] >= {}", d.repeat(l)), format!("{}9", d.repeat(l - 1))] {
+                    idx += 1;
+                    if ctx.mine(idx) {
+                        check_bytes(ctx, text.as_bytes(), true);
+                        ctx.count("long_flat", 1);
+                        let _ = name;
+                    }
+                }
             }
         }
         // long but flat lists / chains are only parsed (their evaluation cost is by design)
